@@ -414,6 +414,7 @@ var (
 	nCkSeq       atomic.Int64
 	stallCk      atomic.Bool
 	builtSig     atomic.Pointer[chan struct{}]
+	holdMerger   atomic.Pointer[chan struct{}]
 	strWaiting   atomic.Bool
 	strDone      = make(chan struct{}, 1)
 	nWidened     atomic.Int64
@@ -429,6 +430,12 @@ func newSig() *chan struct{} {
 func gate(point string, kv []any) {
 	switch point {
 	case "merge.begin":
+		if ch := holdMerger.Load(); ch != nil {
+			select {
+			case <-*ch:
+			case <-time.After(30 * time.Millisecond):
+			}
+		}
 		if alterPending.Load() {
 			if ch := alterBuilt.Load(); ch != nil {
 				nGated.Add(1)
@@ -537,6 +544,15 @@ func adminLoop(r *rand.Rand, stop, done chan struct{}) {
 				}()
 			}
 		}
+		// a transaction on another table that spans the schema change
+		var span *client
+		other := prof.tables[len(prof.tables)-1]
+		if r.Intn(2) == 0 {
+			if span = beginTran(rand.New(rand.NewSource(r.Int63())), true); span != nil {
+				span.force = span.freshRow(other)
+				span.output(other)
+			}
+		}
 		res := "ok"
 		func() {
 			defer func() {
@@ -549,6 +565,29 @@ func adminLoop(r *rand.Rand, stop, done chan struct{}) {
 		alterPending.Store(false)
 		if st != nil {
 			<-stDone
+		}
+		if span != nil {
+			// while the merger is held inside a merge, the spanning transaction (old
+			// schema) and one begun after the change commit back to back
+			hold := newSig()
+			holdMerger.Store(hold)
+			if c := beginTran(rand.New(rand.NewSource(r.Int63())), true); c != nil {
+				c.force = c.freshRow(other)
+				c.output(other)
+				c.finish()
+			}
+			time.Sleep(300 * time.Microsecond)
+			b := beginTran(rand.New(rand.NewSource(r.Int63())), true)
+			if b != nil {
+				b.force = b.freshRow(other)
+				b.output(other)
+			}
+			span.finish()
+			if b != nil {
+				b.finish()
+			}
+			holdMerger.Store(nil)
+			close(*hold)
 		}
 		if res == "ok" {
 			if zstep {
